@@ -63,27 +63,49 @@ def _z3_try(smt2, timeout_ms, tactic=None, seed=0):
 
 
 def _cvc5_try(smt2, timeout_ms, opts=()):
+    """cvc5 1.4 through its Python API (built with libpoly: --nl-cov available); runs in a child
+    process so that tlimit overruns cannot hang the pool"""
+    import multiprocessing as mp_
     t0 = time.time()
-    if not os.path.exists(CVC5):
-        return "unknown", "cvc5 not installed", 0.0
     text = "(set-logic ALL)\n" + "\n".join(l for l in smt2.splitlines() if not l.startswith("(set-info"))
-    with tempfile.NamedTemporaryFile("w", suffix=".smt2", delete=False) as f:
-        f.write(text)
-        path = f.name
-    try:
-        p = subprocess.run([CVC5, "--lang=smt2", f"--tlimit={int(timeout_ms)}", *opts, path],
-                           capture_output=True, text=True, timeout=timeout_ms / 1000 + 10)
-        out = p.stdout.strip().splitlines()
-        first = out[0] if out else ""
-        if first == "unsat":
-            return "proved", None, time.time() - t0
-        if first == "sat":
-            return "refuted", {}, time.time() - t0
-        return "unknown", (p.stdout + p.stderr)[:200], time.time() - t0
-    except subprocess.TimeoutExpired:
-        return "unknown", "cvc5 timeout", time.time() - t0
-    finally:
-        os.unlink(path)
+    ctx = mp_.get_context("fork")
+    rd, wr = ctx.Pipe(duplex=False)
+
+    def child():
+        try:
+            import cvc5
+            slv = cvc5.Solver()
+            slv.setOption("tlimit-per", str(int(timeout_ms)))
+            for o in opts:
+                slv.setOption(o, "true")
+            p = cvc5.InputParser(slv)
+            p.setStringInput(cvc5.InputLanguage.SMT_LIB_2_6, text, "q")
+            sm = p.getSymbolManager()
+            res = "unknown"
+            while True:
+                cmd = p.nextCommand()
+                if cmd.isNull():
+                    break
+                out = cmd.invoke(slv, sm).strip()
+                if out in ("sat", "unsat", "unknown"):
+                    res = out
+            wr.send(res)
+        except BaseException as e:  # noqa
+            wr.send(f"error {e!r}"[:200])
+    pr = ctx.Process(target=child, daemon=False)
+    pr.start()
+    res = "unknown"
+    if rd.poll(timeout_ms / 1000 + 5):
+        res = rd.recv()
+    if pr.is_alive():
+        pr.kill()
+    pr.join()
+    dt = time.time() - t0
+    if res == "unsat":
+        return "proved", None, dt
+    if res == "sat":
+        return "refuted", {}, dt
+    return "unknown", res, dt
 
 
 def solve_one(job):
@@ -117,7 +139,7 @@ def solve_one(job):
         tried.append(("z3-nlsat", st, round(dt, 3)))
         total += dt
     if st == "unknown":
-        st2, info2, dt = _cvc5_try(smt2, budget, ("--nl-cov",) if not has_int else ())
+        st2, info2, dt = _cvc5_try(smt2, budget, ("nl-cov",) if not has_int else ())
         tried.append(("cvc5", st2, round(dt, 3)))
         total += dt
         if st2 == "proved":
@@ -164,6 +186,6 @@ def discharge_all(obls, budget_ms=20000, procs=None, ideal_enabled=True):
     procs = procs or min(16, os.cpu_count() or 4)
     if len(jobs) <= 1 or procs == 1:
         return [solve_one(j) for j in jobs]
-    ctx = mp.get_context("fork")
-    with ctx.Pool(procs) as pool:
-        return pool.map(solve_one, jobs, chunksize=1)
+    from concurrent.futures import ProcessPoolExecutor
+    with ProcessPoolExecutor(max_workers=procs, mp_context=mp.get_context("fork")) as ex:
+        return list(ex.map(solve_one, jobs, chunksize=1))
